@@ -3,6 +3,7 @@ package interp
 // Engine side of the harness vocabulary (package nd) and the path runner.
 
 import (
+	"os"
 	"fmt"
 	"go/token"
 	"go/types"
@@ -286,6 +287,10 @@ func (s *Session) RunPath(z *solver, prefix []Decision, maxSteps int, keepPC boo
 			default:
 				res.Status = "panic"
 				res.Why = panicMessage(r)
+				res.Where = strings.Join(s.i.unwindTrace, " < ")
+				if os.Getenv("SYMGO_DEBUG") != "" {
+					fmt.Fprintf(os.Stderr, "TARGET-PANIC %s\n  at %s\n", res.Why, res.Where)
+				}
 				if strings.HasPrefix(res.Why, "engine:") {
 					res.Status = "inconclusive"
 					break
